@@ -60,3 +60,10 @@ check("C15",
   "For every generated (response form, right-hand side, flavour): numeric response equals the column as z3 terms; categorical response is one indicator column per level in sorted/declared order; y[level] (identifier or quoted) is a single column that is 1 exactly where y equals the level; prop(s, n) with z3-integer successes/trials gives (s, n), its refusal happens only on paths where some s > t (solver-checked); multi-term responses are refused; common and group matrices equal, as z3 terms, those of the same right-hand side without a response; no '~' gives response None.",
   "Trusted: z3; stubs in evidence. Response forms, right-hand sides and flavours are enumerated.",
   "DESIGN.md section 4 C15")
+
+check("C16",
+  "symbolic execution of the helper functions on z3-real / z3-integer columns through the real pipeline (per-row equality forks decided by z3), alias pairs as relational runs",
+  "model_checking",
+  "binary(x, s) on a symbolic numeric column is explored over every feasible pattern of x_i == s and compared with If(x_i == s, 1, 0) (smallest value if s omitted; refusal only on paths where no row equals s); binary on categoricals, offset (column, constants, calls) at training and recomputed from fresh symbols at prediction, prop trials of the new frame at prediction, I(e) == e == {e}; every alias pair (B/binary, p/prop/proportion, standardize/scale, T/C+Treatment, S/C+Sum) gives equal z3 terms and labels equal modulo the callee name, at training and at prediction.",
+  "Trusted: z3; stubs in evidence. Integrality validation of prop is exercised on concrete tables only (np.mod on a real term is uninterpreted).",
+  "DESIGN.md section 4 C16")
